@@ -1,13 +1,14 @@
 (* C01  Reliable, ordered, exactly-once stream delivery over any lossy network.
-   Only statements here; proofs live in coq/proofs/NetSysP.v and NetSysP2.v.
+   Only statements here; proofs live in coq/proofs/NetSysP.v, NetSysP2.v, NetSysP3.v (safety on the data steps),
+   NetSysP4.v (liveness by construction), NetSysP5.v (fairness as accounting), NetSysP6.v (reset steps).
 
    [nreach s]: s is reachable in the network system model/NetSys.v from the initial state by ANY
    sequence of enabled data steps (write, emit with arbitrary caps, deliver ANY emitted frame -- so
    loss, delay, duplication and reordering are all just schedules --, ACKED/LOST outcome for an emitted
    frame without outcome, ACKED only if it was delivered; pop / sync of the event queue).
    [n_dbytes] / [n_ends]: concatenation of the bytes / number of end markers reported to the application. *)
-From AQ Require Import lib.Base model.RangeSet model.StreamRecv model.StreamSpec model.StreamSend model.NetSys
-  proofs.StreamSendP proofs.NetSysP proofs.NetSysP2 proofs.NetSysP3.
+From AQ Require Import lib.Base model.RangeSet model.StreamRecv model.StreamSpec model.StreamSend model.NetSys model.NetSysLive
+  proofs.StreamSendP proofs.NetSysP proofs.NetSysP2 proofs.NetSysP3 proofs.NetSysP4 proofs.NetSysP5 proofs.NetSysP6 proofs.NetSysP7.
 
 (* the bytes reported are a prefix of the bytes written, in every reachable state; the end marker is
    reported at most once and only when a FIN was written and all written bytes have been reported *)
@@ -49,3 +50,143 @@ Theorem finished_implies_delivered_thm : forall s, nreach s -> s_finished (n_sen
   n_dbytes s = n_written s /\ n_ends s = 1 /\ eof s.
 Proof. exact finished_implies_delivered. Qed.
 Print Assumptions finished_implies_delivered_thm.
+
+(* ------------------------------------------------------------------------------------------------
+   Liveness.  [complete ms s] (proofs/NetSysP4.v) is a Gallina function computing a continuation
+   schedule from the state alone: LOST for every emitted frame without outcome, then rounds of
+   emit-with-budget-ms / deliver / ACKED.  From EVERY reachable state it runs, uses data steps only,
+   and ends with every written byte reported in order, exactly one end marker iff a FIN was written,
+   the sender is_finished iff a FIN was written, no frame left without outcome.  Its length is bounded
+   by |emitted| + 3 * rounds, where rounds = sum over the ranges pending after the losses of
+   ceil(len / ms), + 1 for a pending FIN; rounds <= unacknowledged span + 1 and
+   rounds <= number of pending ranges + pending bytes / ms + 1.
+   (Executed by vm_compute on a mid-way state: NetSysP4.complete_example.) *)
+Theorem fair_schedule_completes_thm : forall s ms, nreach s -> 0 < ms ->
+  exists s', run_sched s (complete ms s) = Some s' /\ Forall data_op (complete ms s) /\
+    n_written s' = n_written s /\ n_dbytes s' = n_written s /\
+    (eof s -> n_ends s' = 1 /\ s_finished (n_send s') = true) /\
+    (~ eof s -> n_ends s' = 0 /\ s_finished (n_send s') = false) /\
+    quiet s' /\
+    Z.of_nat (length (complete ms s)) <= Zlen (n_emitted s) + 3 * rounds ms (n_send (after_loss s)) /\
+    rounds ms (n_send (after_loss s)) <= Zlen (n_written s) - s_start (n_send s) + 1 /\
+    rounds ms (n_send (after_loss s)) <=
+      Zlen (s_pending (n_send (after_loss s))) + psize (s_pending (n_send (after_loss s))) / ms + 1.
+Proof. exact fair_schedule_completes. Qed.
+Print Assumptions fair_schedule_completes_thm.
+
+(* Fairness as accounting, for EVERY schedule of data steps (any interleaving of writes, emits with any
+   caps, deliveries of any frame any number of times, LOST / ACKED outcomes):
+   unacked(after) + #useful acknowledgements <= unacked(before) + bytes and FINs written by the schedule.
+   [unacked s] = written bytes not yet acknowledged + 1 for a written, not yet acknowledged FIN;
+   an acknowledgement is useful when its frame carries >= 1 byte, or a FIN while no FIN was acknowledged. *)
+Theorem schedule_accounting_thm : forall ops s s', nreach s -> Forall data_op ops -> run_sched s ops = Some s' ->
+  unacked s' + useful_acks s ops <= unacked s + wcosts ops.
+Proof. exact schedule_accounting. Qed.
+Print Assumptions schedule_accounting_thm.
+
+Theorem unacked_bound_thm : forall s, nreach s -> 0 <= unacked s <= Zlen (n_written s) - s_start (n_send s) + 1.
+Proof. exact (fun s R => conj (unacked_nonneg s) (unacked_bound s R)). Qed.
+Print Assumptions unacked_bound_thm.
+
+(* A fair run = a sequence of rounds; a round is ANY schedule of data steps without writes that, as executed,
+   contains at least one useful acknowledgement.  After k >= unacked s rounds (so after at most
+   "unacknowledged bytes + 1" rounds) the stream is complete -- and then k = unacked s exactly. *)
+Theorem fair_rounds_complete_thm : forall s segs s', nreach s -> fair_rounds s segs s' -> unacked s <= Z.of_nat (length segs) ->
+  n_written s' = n_written s /\ n_dbytes s' = n_written s /\
+  (eof s' -> n_ends s' = 1 /\ s_finished (n_send s') = true) /\ (~ eof s' -> n_ends s' = 0) /\
+  Z.of_nat (length segs) = unacked s.
+Proof. exact fair_rounds_complete. Qed.
+Print Assumptions fair_rounds_complete_thm.
+
+(* ... and progress is always possible: from every reachable state that is not complete there is such a round,
+   of at most |emitted| + 3 steps (LOST for the frames without outcome, emit, deliver, ACKED) *)
+Theorem fair_round_exists_thm : forall s ms, nreach s -> 0 < ms -> 0 < unacked s ->
+  exists s', run_sched s (fair_round ms s) = Some s' /\ Forall nowrite_op (fair_round ms s) /\
+    1 <= useful_acks s (fair_round ms s) /\
+    Z.of_nat (length (fair_round ms s)) <= Zlen (n_emitted s) + 3.
+Proof. exact fair_round_exists. Qed.
+Print Assumptions fair_round_exists_thm.
+
+Theorem unacked_zero_complete_thm : forall s, nreach s -> unacked s = 0 ->
+  n_dbytes s = n_written s /\
+  (eof s -> n_ends s = 1 /\ s_finished (n_send s) = true) /\ (~ eof s -> n_ends s = 0).
+Proof. exact unacked_zero_complete. Qed.
+Print Assumptions unacked_zero_complete_thm.
+
+(* ------------------------------------------------------------------------------------------------
+   Resets.  [xreach s]: reachable by ANY sequence of enabled steps, reset steps included (reset_stream /
+   STOP_SENDING, RESET_STREAM emitted, delivered any number of times, ACKED / LOST). *)
+Theorem every_schedule_xreachable_thm : forall ops s s', xreach s -> run_sched s ops = Some s' -> xreach s'.
+Proof. exact run_sched_xreach. Qed.
+Print Assumptions every_schedule_xreachable_thm.
+
+(* prefix delivery and at-most-one end marker, with resets *)
+Theorem delivery_is_prefix_resets_thm : forall s, xreach s ->
+  (exists rest, n_written s = n_dbytes s ++ rest) /\ 0 <= n_ends s <= 1 /\
+  (n_ends s = 1 -> eof s /\ n_dbytes s = n_written s).
+Proof. exact x_delivery_is_prefix. Qed.
+Print Assumptions delivery_is_prefix_resets_thm.
+
+(* no step of any schedule -- delivery of any STREAM frame or of any RESET_STREAM frame, before or after an
+   accepted reset -- yields FinalSizeError *)
+Theorem no_spurious_final_size_error_resets_thm : forall s op o s',
+  xreach s -> net_step s op = Some (o, s') -> o <> OFinalSizeError.
+Proof. exact x_no_spurious_final_size_error. Qed.
+Print Assumptions no_spurious_final_size_error_resets_thm.
+
+(* highest_offset never exceeds the written length and bounds the end of every emitted frame; the final size of
+   every RESET_STREAM frame is that highest offset, and it is the only final size the receiver ever holds *)
+Theorem highest_offset_sound_thm : forall s, xreach s ->
+  0 <= s_highest (n_send s) <= Zlen (n_written s) /\
+  (forall f, In f (n_emitted s) -> ef_off f + Zlen (ef_data f) <= s_highest (n_send s)).
+Proof. exact highest_offset_sound. Qed.
+Print Assumptions highest_offset_sound_thm.
+
+Theorem reset_final_size_sound_thm : forall s fs, xreach s -> In fs (n_resets s) ->
+  fs = s_highest (n_send s) /\ 0 <= fs <= Zlen (n_written s) /\
+  (forall f, In f (n_emitted s) -> ef_off f + Zlen (ef_data f) <= fs) /\
+  (forall f, r_final (n_recv s) = Some f -> f = fs).
+Proof. exact reset_final_size_sound. Qed.
+Print Assumptions reset_final_size_sound_thm.
+
+(* with resets the sender reports is_finished only after a RESET_STREAM frame was acknowledged or the receiver has
+   reported every written byte and the end marker *)
+Theorem finished_implies_resets_thm : forall s, xreach s -> s_finished (n_send s) = true ->
+  (n_racked s = true /\ n_resets s <> []) \/ (n_dbytes s = n_written s /\ n_ends s = 1 /\ eof s).
+Proof. exact x_finished_implies. Qed.
+Print Assumptions finished_implies_resets_thm.
+
+(* liveness after reset(): from every reachable state in which reset() was called, three steps (emit RESET_STREAM,
+   deliver it, acknowledge it) make the sender is_finished and the receive half finished; they report exactly one
+   StreamReset unless the receive half had finished before.  While reset() has not been called every reachable state
+   is a data-step state, so the liveness theorems above apply to it. *)
+Theorem reset_completes_thm : forall s, xreach s -> s_reset (n_send s) <> None ->
+  exists s', run_sched s (reset_round s) = Some s' /\
+    s_finished (n_send s') = true /\ n_racked s' = true /\ n_rreset s' = true /\ r_finished (n_recv s') = true /\
+    n_resets s' = n_resets s ++ [s_highest (n_send s)] /\
+    sched_events s (reset_round s) = (if r_finished (n_recv s) then [] else [RReset]).
+Proof. exact reset_completes. Qed.
+Print Assumptions reset_completes_thm.
+
+Theorem xreach_noreset_nreach_thm : forall s, xreach s -> s_reset (n_send s) = None -> nreach s.
+Proof. exact xreach_noreset_nreach. Qed.
+Print Assumptions xreach_noreset_nreach_thm.
+
+(* after the receiver accepted a reset nothing more is reported, whatever step follows *)
+Theorem nothing_after_reset_thm : forall s op o s', xreach s -> n_rreset s = true -> net_step s op = Some (o, s') ->
+  n_dbytes s' = n_dbytes s /\ n_ends s' = n_ends s /\ n_rreset s' = true /\ queued s op s' = [].
+Proof. exact nothing_after_reset. Qed.
+Print Assumptions nothing_after_reset_thm.
+
+(* the event stream of EVERY schedule from the initial state (resets included): the ghost fields n_dbytes / n_ends
+   are exactly the bytes / end markers of the queued events; a terminal event (end marker or StreamReset) is the last
+   event, so there is at most one of them -- the StreamReset is reported at most once and nothing after it --;
+   next_event() pops exactly the queued events in order *)
+Theorem event_stream_thm : forall ops s', run_sched net_init ops = Some s' ->
+  xreach s' /\
+  n_dbytes s' = bytes_all (sched_events net_init ops) /\ n_ends s' = ends_of (sched_events net_init ops) /\
+  term_last (sched_events net_init ops) /\
+  Zlen (filter is_term (sched_events net_init ops)) <= 1 /\
+  sched_popped net_init ops ++ n_queue s' = sched_events net_init ops.
+Proof. exact events_from_init. Qed.
+Print Assumptions event_stream_thm.
